@@ -227,11 +227,11 @@ package storage
 // (frame = freshonly: besides the store, SaveTxState writes only its own buffer and FetchTxState
 // only the record it decodes — used where callers summarise them instead of inlining them)
 //@ func SaveTxState
-//@   serves C11
+//@   serves C11 C15
 //@   inline
 //@   opt frame = freshonly
 //@ func FetchTxState
-//@   serves C11 C03
+//@   serves C11 C03 C15
 //@   inline
 //@   opt frame = freshonly
 //@   opt partial = 1
@@ -240,7 +240,7 @@ package storage
 //@   assumes outs: result1 == nil ==> forall(k, 0, len(result0.Tx.TxOut), result0.Tx.TxOut[k] != nil)
 
 //@ func verifSaveFetchTxState
-//@   serves C11
+//@   serves C11 C15
 //@   opt partial = 1
 //@   requires tx != nil && tx.Tx != nil && len(tx.Outputs) == len(tx.Tx.TxIn) && txinCount(abs(tx.Tx)) == len(tx.Tx.TxIn) && forall(k, 0, len(tx.Outputs), tx.Outputs[k] != nil)
 //@   ensures fetched_equals_saved: [C11] result1 == nil ==> result0 != nil && deepeq(result0, tx)
